@@ -241,4 +241,19 @@ def templates(tier="quick"):
     T += _mk("dyndep_validation", [v], tags=["dyndep", "validation"], depth=d, js=(1, 3), files={"dd.in": dd},
              max_fault_stmts=3, edits_during=False, touch_only=("dd.in",))
 
+    # T26 a restat statement that also reports dependencies (deps / depfile): its header is touched without a
+    # content change, the command re-runs and leaves the output alone -- the build must converge
+    for kind, kw in (("gcc", {"deps": "gcc"}), ("depfile", {"depfile": True}), ("msvc", {"deps": "msvc"})):
+        v = Variant("v0", [Stmt("obj", ex=["src"], hidden=["hdr"], restat=True, **kw), Stmt("exe", ex=["obj"])])
+        T += _mk("restat_with_%s" % kind, [v], tags=["restat", kind], depth=d, touch=True, js=(1, 2))
+
+    # T27 a restat statement with two outputs whose contents depend on different inputs: one is rewritten, the
+    # other left alone; consumers of each, in both declaration orders
+    for order in (("a", "b"), ("b", "a")):
+        g = Stmt(list(order), ex=["s", "t"], restat=True)
+        g.per_out_reads = {"a": ["s"], "b": ["t"]}
+        v = Variant("v0", [g, Stmt("xa", ex=["a"]), Stmt("xb", ex=["b"]), Stmt("top", ex=["xa", "xb"])])
+        T += _mk("restat_two_outputs_%s%s" % order, [v], tags=["restat", "multi-output"], depth=d, touch=True, js=(1, 2),
+                 max_fault_stmts=1)
+
     return T
